@@ -20,7 +20,7 @@ partial def bodyOf (j : Json) : Except String Body := do
   go a.toList
 
 def faultOf : String → Fault
-  | "pre" => .pre | "unsat" => .unsat | "internal" => .internal | "post" => .post | _ => .none
+  | "pre" => .pre | "unsat" => .unsat | "internal" => .internal | "post" => .post | "analysis" => .analysis | _ => .none
 
 def jStacks (s : Stacks) : Json :=
   Json.arr ((#[s.scope, s.exprs, s.foreachS, s.srcinfo, s.exprMode, s.rawMode, s.overrides, (if s.staleVars then 1 else 0)] : Array Nat).map
